@@ -812,8 +812,14 @@ impl Walrus {
             cur_off = 0;
         }
 
-        // Plan tail if we're at the end of sealed chain
-        if cur_idx >= chain_len_at_plan {
+        // Plan tail if we're at the end of sealed chain. The writer snapshot was taken before the
+        // column lock: if its block has been sealed meanwhile, the block is in `chain` and was planned
+        // above - reading it again as the tail would deliver its entries twice.
+        let snapshot_is_sealed = writer_snapshot
+            .as_ref()
+            .map(|(b, _)| chain.iter().any(|c| c.id == b.id))
+            .unwrap_or(false);
+        if cur_idx >= chain_len_at_plan && !snapshot_is_sealed {
             if let Some((active_block, written)) = writer_snapshot.clone() {
                 // Determine start of tail read
                 let mut tail_start = if start_offset.is_some() {
